@@ -309,6 +309,10 @@ func WithManifestDigestAlgo(algo digest.Algorithm) Opts {
 			}
 			desc := dm.m.GetDescriptor()
 			desc.Digest = ""
+			// the manifest is marshaled again below: the size is recomputed and the annotations of the
+			// descriptor the source was fetched with (e.g. an OCI Layout tag name) must not follow the new manifest
+			desc.Size = 0
+			desc.Annotations = nil
 			err := desc.DigestAlgoPrefer(algo)
 			if err != nil {
 				return err
